@@ -170,7 +170,7 @@ func (l c05) Exec(env *core.Env) *core.Result {
 				}
 			}
 			faultsBefore := task.FaultsSeen
-			outcome, verr := verifyEntry(ctx, v, w["entry"], desc, sig, format)
+			outcome, verr := verifyEntry(ctx, v, entryOf(w), desc, sig, format)
 			injected := task.FaultsSeen != faultsBefore
 			var vs []string
 			for _, r := range vector {
